@@ -69,6 +69,8 @@ def stage_cfgs(pid, tier, rng):
                             mc.append(C(inputs=[[1, 2, 3, 4, 5]], **dict(base, pred=[1, 3, 4])))
                             gen.append(C(inputs=[[1, 2, 3, 4]], **base))
                 rnd.append(C(inputs=[[1, 2, 3, 4, 5]], n=rng.randint(0, 6), **base))
+                if cap == 2:
+                    rnd.append(C(inputs=[[1, 2, 3, 4, 5, 6, 7]], n=rng.randint(0, 8), **dict(base, cap=rng.randint(3, 5))))
                 if cap == 1:
                     # repeated and unordered values (an element is not identified by its value)
                     rnd.append(C(inputs=[[2, 2, 1, 1, 3, 2, 3]], n=rng.randint(1, 8), **base))
@@ -506,7 +508,7 @@ def pipeline_cfgs(rng, n):
             elif kind == "FMap":
                 st["mode"] = "try"
                 st["fail"] = sorted(rng.sample(dom, min(len(dom), rng.randint(0, 1))))
-                cur = {y for x in cur if x not in st["fail"] for y in ([10 * x, 10 * x + 1] if x % 2 == 1 else [10 * x])}
+                cur = {y for x in cur if x not in st["fail"] for y in ([] if x % 3 == 0 else [10 * x, 10 * x + 1] if x % 2 == 1 else [10 * x])}
             elif kind in ("Filter", "TakeWhile"):
                 st["pred"] = sorted(rng.sample(dom, rng.randint(0, len(dom)))) if dom else []
                 cur = {x for x in cur if x in st["pred"]}
